@@ -69,7 +69,7 @@ OSub ==
 Reread ==
   /\ Is("reread")
   /\ "none" \notin DOMAIN P
-  /\ (E.st = "skipped") = (~P.ok)
+  /\ (E.st = "skipped") => ~P.ok       \* (a subset that cannot be inspected is still written)
   /\ Report(FailedReread(F, P, E.st, E.p))
   /\ UNCHANGED <<F, list, P>>
   /\ Consume
